@@ -72,6 +72,11 @@ def _searchsorted(it, a, kw):
         ssf = z3.Function(f"ssf!{next(run.counter)}", z3.RealSort(), z3.IntSort())
         x, j = z3.Real(f"v!{next(run.counter)}"), z3.Int(f"j!{next(run.counter)}")
         cj = to_z3(c.at(j))
+        if not (z3.is_app(cj) and cj.decl().kind() == z3.Z3_OP_UNINTERPRETED):
+            # the searched array is given by an expression (e.g. abs(cumsum(w))): name it by a function so that it can serve as a quantifier pattern
+            cf = z3.Function(f"ssarr!{next(run.counter)}", z3.IntSort(), cj.sort())
+            run.assumed.append(z3.ForAll([j], cf(j) == cj, patterns=[cf(j)]))
+            cj = cf(j)
         lt = (lambda a_, b_: a_ < b_) if side == "left" else (lambda a_, b_: a_ <= b_)
         run.assumed.append(z3.ForAll([x], z3.And(ssf(x) >= 0, ssf(x) <= n), patterns=[ssf(x)]))
         run.assumed.append(z3.ForAll([x, j], z3.Implies(z3.And(j >= 0, j < ssf(x)), lt(cj, x)), patterns=[z3.MultiPattern(ssf(x), cj)]))
